@@ -169,6 +169,20 @@ fn c12_default_read_exact_interrupted() {
     read_exact_case::<3, 3>(1);
 }
 
+// @verif prop=C12 id=O12.1e tier=thorough unwind=10 bound="8-byte stream, want 7 bytes; every partition (no Interrupted)" fns="bgzf::io::reader::default_read_exact"
+#[kani::proof]
+#[kani::unwind(10)]
+fn c12_default_read_exact_8_7() {
+    read_exact_case::<8, 7>(0);
+}
+
+// @verif prop=C12 id=O12.1f tier=thorough unwind=8 bound="1-byte stream, want 6 bytes (premature EOF); every partition" fns="bgzf::io::reader::default_read_exact"
+#[kani::proof]
+#[kani::unwind(8)]
+fn c12_default_read_exact_1_6() {
+    read_exact_case::<1, 6>(0);
+}
+
 // @verif prop=C12 id=O12.1d tier=thorough unwind=10 bound="6-byte stream, want 6 bytes; every partition, <=2 Interrupted" fns="bgzf::io::reader::default_read_exact"
 #[kani::proof]
 #[kani::unwind(10)]
